@@ -219,6 +219,8 @@ def r3_flavour(chk):
     # exts injection
     inj = [s for s in walk_no_nested(fn) if isinstance(s, ast.Assign) and isinstance(s.targets[0], ast.Subscript) and
            _key_is(s.targets[0].value, kw) and norm(s.targets[0].slice) == "'exts'" and norm(s.value) == 'self.exts']
+    inj += [s for s in walk_no_nested(fn) if isinstance(s, ast.Assign) and _key_is(s.targets[0], kw) and
+            norm(s.value) in ('dict(%s, exts=self.exts)' % kw,)]
     chk.ob('C19.R3', 'AbstractBorrower.getData/exts-default', bool(inj) and cfg.node_of(inj[0]).lineno < rn.lineno,
            where(mod, fn), "options['exts'] = self.exts must be injected before the reader call")
     if inj:
